@@ -1531,6 +1531,15 @@ class Engine:
             if f is not None:
                 out.append((f, Raised("KeyError")))
             return out
+        if isinstance(cont, VList) and isinstance(key, VPy) and isinstance(key.obj, tuple) and key.obj[0] == "suffixslice":
+            # lst[k:] with a literal k >= 0: a NEW list of length max(n - k, 0) whose element i is lst[i + k] (never raises)
+            k = key.obj[1]
+            n2 = z3.Int(fresh_name("slice_n"))
+            a2 = z3.Const(fresh_name("slice_arr"), cont.arr.sort())
+            qi = z3.Int(fresh_name("slice_i"))
+            st.assume(n2 == z3.If(cont.n >= k, cont.n - k, 0))
+            st.assume(z3.ForAll([qi], z3.Implies(z3.And(0 <= qi, qi < n2), a2[qi] == cont.arr[qi + k]), patterns=[a2[qi]]))
+            return [(st, VList(n2, a2, cont.ty))]
         if isinstance(cont, VList):
             idx = self.coerce(key, T.int, st, node).z
             t, f = self.branch(st, z3.And(0 <= idx, idx < cont.n), node)
@@ -1941,6 +1950,8 @@ class Engine:
     def ex_Slice(self, e, st):
         if e.lower is None and e.upper is None and e.step is None:
             return [(st, VPy(("fullslice",)))]
+        if e.upper is None and e.step is None and isinstance(e.lower, ast.Constant) and isinstance(e.lower.value, int) and not isinstance(e.lower.value, bool) and e.lower.value >= 0:
+            return [(st, VPy(("suffixslice", e.lower.value)))]
         raise Unsupported("slice with bounds", e)
 
     def ex_Lambda(self, e, st):
